@@ -350,11 +350,17 @@ def r3(ctx: Ctx) -> None:
     cfun = canon_function(fp, ctx.model)
     shape_vars = [st[1] for st in atoms_of(cfun, lambda x: x[0] == "set" and len(x) == 3) if
                   st[2] == ("c", ("g", "Shape"), (("s", tree, KW["KW_WIDTH"]), ("s", tree, KW["KW_HEIGHT"])), ())]
+    # what the statements on the main line of the normal form assert holds at the final return as well (there the
+    # locals that only name a value are looked through: Shape(w, h).w is w)
+    nf_facts = set()
+    for st in cfun:
+        if st[0] == "assert":
+            nf_facts |= set(st[1][1]) if st[1][0] == "and" else {st[1]}
     for dim, key in [("w", "KW_WIDTH"), ("h", "KW_HEIGHT")]:
         vals = [("s", tree, KW[key])] + [("a", v, dim) for v in shape_vars]
         ctx.site(fp.where, f"obligation: {key} numeric and > 0")
-        num = any(("c", ("g", "is_number"), (val,), ()) in facts for val in vals)
-        pos = any(mk_lt(k_num(0), val) in facts for val in vals)
+        num = any(("c", ("g", "is_number"), (val,), ()) in facts or ("c", ("g", "is_number"), (val,), ()) in nf_facts for val in vals)
+        pos = any(mk_lt(k_num(0), val) in facts or mk_lt(k_num(0), val) in nf_facts for val in vals)
         if not num:
             ctx.report(fp.where, f"reader-{key}-numeric", f"the die {key[3:].lower()} is not checked to be a number", lineno=fp.node.lineno)
         if not pos:
